@@ -314,9 +314,9 @@ let () =
                 e_key = n_of_string k; e_client = n_of_string c; e_series = n_of_string sr;
                 e_responded = n_of_string r; e_cmd = [] } in
       let n = n_of_string n in
-      Printf.printf "%s BIG SIZE %s LEN %s HEAD %s DEC %s\n" id
+      Printf.printf "%s BIG SIZE %s UPPER %s LEN %s HEAD %s DEC %s\n" id
         (match size_checked_len e n with Some s -> string_of_n s | None -> "panic")
-        (string_of_n (size_len e n)) (hex_of_bytes (encode_head e n))
+        (string_of_n (size_upper_limit_len n)) (string_of_n (size_len e n)) (hex_of_bytes (encode_head e n))
         (match decode_outcome_len e n with Some _ -> "ok" | None -> "max")
     | [id; "DECODE"; h] ->
       Printf.printf "%s DEC %s\n" id (show_dec (decode (bytes_of_hex h)))
